@@ -1883,31 +1883,40 @@ func elementToBytes(el *etree.Element) ([]byte, error) {
 
 // unmarshalElement serializes el into v by serializing el and then parsing it with encoding/xml.
 //
-// Namespace declarations are resolved by the tokenizer and then kept from the struct decoder:
-// encoding/xml matches an `xml:",attr"` field by local name in any namespace, the "xmlns" one
-// included, and the last match wins. A declaration such as xmlns:Destination="..." - which
-// exclusive canonicalization leaves out of the signed octets because nothing uses the prefix -
-// would otherwise be decoded as (and take precedence over) the Destination attribute.
+// encoding/xml matches an `xml:",attr"` field by local name in any namespace - the "xmlns" one
+// included - and the last match wins. So a namespace declaration such as xmlns:Destination="..."
+// (which exclusive canonicalization leaves out of the signed octets when nothing uses the prefix)
+// or an extension attribute such as ext:Recipient="..." would be decoded as, and take precedence
+// over, the Destination or Recipient attribute. Namespaces are therefore resolved by the tokenizer,
+// and only the attributes the schema types can mean reach the struct decoder.
 func unmarshalElement(el *etree.Element, v interface{}) error {
 	buf, err := elementToBytes(el)
 	if err != nil {
 		return err
 	}
-	return xml.NewTokenDecoder(withoutNamespaceDeclarations{xml.NewDecoder(bytes.NewReader(buf))}).Decode(v)
+	return xml.NewTokenDecoder(samlAttributesOnly{xml.NewDecoder(bytes.NewReader(buf))}).Decode(v)
 }
 
-// withoutNamespaceDeclarations is an xml.TokenReader that yields the tokens of d, names already
-// translated to their namespaces, without the namespace declarations among the attributes.
-type withoutNamespaceDeclarations struct {
+// samlAttributesOnly is an xml.TokenReader that yields the tokens of d, names already
+// translated to their namespaces, with only those attributes that are unqualified or belong
+// to the xsi or xml namespaces (xsi:type, xml:lang): no namespace declarations, and no
+// attributes of foreign namespaces.
+type samlAttributesOnly struct {
 	d *xml.Decoder
 }
 
-func (r withoutNamespaceDeclarations) Token() (xml.Token, error) {
+func (r samlAttributesOnly) Token() (xml.Token, error) {
 	token, err := r.d.Token()
 	if start, ok := token.(xml.StartElement); ok {
 		attrs := make([]xml.Attr, 0, len(start.Attr))
 		for _, attr := range start.Attr {
-			if attr.Name.Space == "xmlns" || (attr.Name.Space == "" && attr.Name.Local == "xmlns") {
+			switch attr.Name.Space {
+			case "":
+				if attr.Name.Local == "xmlns" {
+					continue
+				}
+			case "http://www.w3.org/2001/XMLSchema-instance", "http://www.w3.org/XML/1998/namespace":
+			default:
 				continue
 			}
 			attrs = append(attrs, attr)
